@@ -480,6 +480,10 @@ def _eq(left: object, right: object) -> bool:  # noqa: PLR0911
 
 
 def _lt(left: object, right: object) -> bool:
+    # Booleans are not ordered, even though `bool` is a subclass of `int`.
+    if isinstance(left, bool) or isinstance(right, bool):
+        return False
+
     if isinstance(left, str) and isinstance(right, str):
         return left < right
 
